@@ -3,8 +3,8 @@
    dynamic record sizing, readRecord, Read; UConn.Read/Write are the same model with cn_uconn = true).
    Primitives are premises (prims_ok); the tamper statement additionally uses an ideal-AEAD premise
    (labelled). Partial proof: see notes/C25.md for what is only observed by the runner. *)
-From UV Require Import Base.Common Model.Record Model.Forge
-  Proofs.RecordP Proofs.RecordRT Proofs.RecordStream Proofs.RecordRead Proofs.TamperP.
+From UV Require Import Base.Common Model.Record Model.Forge Model.KuLock
+  Proofs.RecordP Proofs.RecordRT Proofs.RecordStream Proofs.RecordRead Proofs.TamperP Proofs.KuLockP.
 Open Scope N_scope.
 
 (* one record, every cipher construction (RC4+HMAC, CBC+HMAC with implicit or explicit IV, TLS 1.2 GCM,
@@ -109,6 +109,30 @@ Proof.
   destruct (traffic_key P suite (next_secret P suite (h_secret h))). cbn [h_secret].
   clear IH. induction k as [|j IHj]; [reflexivity|]. simpl. simpl in IHj. rewrite IHj. reflexivity.
 Qed.
+
+(* concurrency: the write key switch is atomic with sending the KeyUpdate answer. Model/v is the
+   interleaving model of c.out (mutex), the goroutine answering in handleKeyUpdate and any number of
+   concurrent Write calls. For every schedule: the wire is one the peer can follow (each data record sealed
+   under the generation = number of KeyUpdate records before it), and from the answer until the switch
+   the answering goroutine holds c.out, so no Write runs in between (lock-held fact). *)
+Theorem C25_key_switch_atomic : forall (tr : list label) (s : st),
+  ku_run true ku_init tr = Some s ->
+  wire_ok 0 (wire s) = true /\
+  (pcA s = A2 -> lock s = ByAnswerer) /\
+  (inWrite s = true -> pcA s = A0).
+Proof. exact key_switch_atomic. Qed.
+Print Assumptions C25_key_switch_atomic.
+
+(* ... and it is needed: if c.out is released between the answer and the switch, a schedule exists in which
+   a Write seals a record under the old key after the answer went out (the peer answers bad_record_mac) *)
+Example C25_ex_unlocked_switch_breaks :
+  match ku_run false ku_init
+          [ALock; ASend; AUnlockMid; WLock; WEmit; WUnlock;
+           ARelock; ASwitch; AUnlock] with
+  | Some s => negb (wire_ok 0 (wire s))
+  | None => false
+  end = true.
+Proof. vm_compute. reflexivity. Qed.
 
 (* tamper_detected (AEAD suites; IDEAL premise: Open only accepts what a key holder sealed): the receiver
    accepts a record only if the triple (nonce of ITS sequence number, additional data carrying sequence
